@@ -6,6 +6,7 @@ import UBidi.Props.C01Tie
 namespace UBidi.Props.C02Tie
 open UBidi
 
-theorem C02_tie_initial_arms (c : BidiClass) : C01Tie.armOf Gen.Code.arms_compute_initial_info c = C01Tie.initialArm c := C01Tie.tie_initial_arms c
+theorem C02_tie_initial_arms (c d : BidiClass) :
+    (C01Tie.armOf Gen.Code.arms_compute_initial_info c = C01Tie.armOf Gen.Code.arms_compute_initial_info d) ↔ (C01Tie.initialArm c = C01Tie.initialArm d) := C01Tie.tie_initial_arms c d
 
 end UBidi.Props.C02Tie
